@@ -489,6 +489,12 @@ class Interp:
                 r = self.call_value(ia, [a, b], {})
             else:
                 # native in-place method (list +=, openfermion __iadd__ ...): executed natively
+                if isinstance(a, np.ndarray) and a.dtype != object and has_sym(b, 1):
+                    # a numeric numpy array cannot hold symbolic values in place: promote to an object array (the update is then
+                    # out of place; other references to the old array would not see it - noted)
+                    if have_ctx():
+                        current().notes.append("numeric ndarray promoted to a symbolic (object) array by an augmented assignment")
+                    return self.binop(opcls, a.astype(object), b)
                 r = ia(a, b)
             if r is not NotImplemented:
                 return r
